@@ -735,6 +735,22 @@ func renderAllOld(ps []path) []string {
 	return l
 }
 
+// the atoms are emitted once, in a table; paths refer to them by index (the Lean kernel compares
+// numbers, not strings, when it decides the equality of the path sets)
+var atomIndex = map[string]int{}
+var atomTable []string
+
+func atomCode(t string) string {
+	a := leanAtom(t)
+	k, ok := atomIndex[a]
+	if !ok {
+		k = len(atomTable)
+		atomIndex[a] = k
+		atomTable = append(atomTable, a)
+	}
+	return strconv.Itoa(k)
+}
+
 // Lean syntax of one atom token
 func leanAtom(t string) string {
 	switch {
@@ -760,7 +776,7 @@ func leanBody(ps []path) []string {
 	for _, p := range ps {
 		var as []string
 		for _, t := range p.toks {
-			as = append(as, leanAtom(t))
+			as = append(as, atomCode(t))
 		}
 		ab := "false"
 		if p.status == stAbort {
@@ -794,7 +810,7 @@ func (w *world) leanPath(p path) string {
 			}
 			ts = append(ts, fmt.Sprintf(".range rangeBody%s%d", w.tag, k))
 		} else {
-			ts = append(ts, ".atom ("+leanAtom(t)+")")
+			ts = append(ts, ".atom "+atomCode(t))
 		}
 	}
 	ab := "false"
@@ -865,10 +881,6 @@ func main() {
 	out := flag.String("out", "", "Lean file to write")
 	flag.Parse()
 	var b strings.Builder
-	b.WriteString("import NA.Model.IosSkelTypes\n")
-	b.WriteString("/-! GENERATED by translate/iosskel from go/pkg/ios, go/pkg/cisco — do not edit, not committed.\n")
-	b.WriteString("Normal form: sets of acyclic paths of interaction steps of the entry points, package helpers inlined\n(see translate/iosskel/main.go). -/\n")
-	b.WriteString("namespace NA.Gen.IosSkel\nopen NA.Ios\n\n")
 	var ents []string
 	for _, e := range entries {
 		w := loadPackage(filepath.Join(*repo, "go", "pkg", e[0]))
@@ -883,15 +895,32 @@ func main() {
 		}
 		if !found {
 			// the entry point is gone: a changed fact, not an abort of the translator
-			ps = []string{"([.atom (.step \"?missing\")], false)"}
+			ps = []string{"([.atom " + atomCode("?missing") + "], false)"}
 		}
 		for i, body := range w.bodies {
-			b.WriteString(fmt.Sprintf("def rangeBody%s%d : List (List Atom × Bool) := [\n  %s\n]\n\n", w.tag, i,
+			b.WriteString(fmt.Sprintf("def rangeBody%s%d : List (List Nat × Bool) := [\n  %s\n]\n\n", w.tag, i,
 				strings.ReplaceAll(body, "), (", "),\n  (")))
 		}
 		ents = append(ents, "  ("+strconv.QuoteToASCII(e[1])+", [\n    "+strings.Join(ps, ",\n    ")+"\n  ])")
 	}
-	b.WriteString("def paths : List (String × List SkelPath) := [\n" + strings.Join(ents, ",\n") + "\n]\n\nend NA.Gen.IosSkel\n")
+	var h strings.Builder
+	h.WriteString("import NA.Model.IosSkelTypes\n")
+	h.WriteString("/-! GENERATED by translate/iosskel from go/pkg/ios, go/pkg/cisco — do not edit, not committed.\n")
+	h.WriteString("Normal form: sets of acyclic paths of interaction steps of the entry points, package helpers inlined\n(see translate/iosskel/main.go).  The atoms are listed once (`atomTable`), the paths refer to them by index. -/\n")
+	h.WriteString("namespace NA.Gen.IosSkel\nopen NA.Ios\n\n")
+	h.WriteString("def atomTable : List Atom := [\n")
+	for i, a := range atomTable {
+		sep := ","
+		if i+1 == len(atomTable) {
+			sep = ""
+		}
+		h.WriteString(fmt.Sprintf("  /- %d -/ %s%s\n", i, a, sep))
+	}
+	h.WriteString("]\n\n")
+	b.WriteString("def paths : List (String × List CPath) := [\n" + strings.Join(ents, ",\n") + "\n]\n\nend NA.Gen.IosSkel\n")
+	b2 := h.String() + b.String()
+	b.Reset()
+	b.WriteString(b2)
 	if *out == "" {
 		fmt.Print(b.String())
 		return
